@@ -221,6 +221,9 @@ func c17Prop(t *testing.T, k *verifkit.Kit) func(c c17Case) error {
 			for i := range cfg.Interfaces {
 				ifi := &cfg.Interfaces[i]
 				p, lp := time.Duration(-1), time.Duration(-1)
+				if len(ifi.Plugins) == 0 {
+					p = 0 // (nothing to prepare: its RA can be generated from the start, and is judged from the start)
+				}
 				prepared[ifi.Name] = &p
 				lastPrep[ifi.Name] = &lp
 				for j := range ifi.Plugins {
